@@ -90,6 +90,8 @@ def run(ctx):
                 opts["max_chain"] = 6
             if k % 3 == 1:
                 opts.update({"cu_imports": 0.4, "implicit_consts": 0.4})
+            if k % 3 == 2:
+                opts["type_units"] = 0.4
             if k >= 0:
                 desc, path = fs.make(rng, **opts)
             i, ne, _ = import_stats(desc)
